@@ -55,6 +55,20 @@ impl Drop for Tracked {
             return; // a never-sent slot filler
         }
         with_ctx(|c| {
+            // harness-side handle table (C14 / C05 engine-T scenarios): a destructor that runs while some handle to the
+            // value has not even been passed to `drop` yet is premature; the run is stopped at once (the handles that
+            // are left are leaked) so that freed bookkeeping memory is never touched by the harness itself
+            if magic == MAGIC && ok {
+                if let Some(live) = c.ledger.live.get(&id).copied() {
+                    if live > 0 {
+                        let prop = c.ledger.held_property;
+                        c.violation(prop, "destroyed_while_held", format!("{}/destroyed_while_held", c.ledger.held_family), format!("the destructor of value {:#x} ran while {} handle(s) to it were still alive", id, live));
+                        if c.aborted.is_none() {
+                            c.aborted = Some(format!("verdict: value {:#x} destroyed while held", id));
+                        }
+                    }
+                }
+            }
             if magic == DEAD {
                 c.ledger.double += 1;
                 c.violation("C05", "destroyed_twice", "ledger/destroyed_twice".into(), format!("payload id {} destroyed again (storage already marked destroyed)", id));
@@ -88,12 +102,27 @@ impl Payload for Plain {
     }
 }
 
-#[derive(Default, Debug)]
+#[derive(Debug)]
 pub struct Ledger {
     /// id -> (created, destroyed) counts
     pub ids: BTreeMap<u32, (u32, u32)>,
     pub double: u32,
     pub garbage: u32,
+    /// harness-maintained: value id -> handles that exist and have not been passed to `drop` yet
+    pub live: BTreeMap<u32, i32>,
+    /// harness-maintained: value id -> clone / drop / bulk-copy operations in progress
+    pub in_flight: BTreeMap<u32, i32>,
+    /// harness-maintained: bumped whenever an operation on a handle of the value starts or ends
+    pub version: BTreeMap<u32, u64>,
+    /// which property / scenario family a premature destruction is reported under
+    pub held_property: &'static str,
+    pub held_family: &'static str,
+}
+
+impl Default for Ledger {
+    fn default() -> Self {
+        Ledger { ids: BTreeMap::new(), double: 0, garbage: 0, live: BTreeMap::new(), in_flight: BTreeMap::new(), version: BTreeMap::new(), held_property: "C05", held_family: "ledger" }
+    }
 }
 
 impl Ledger {
